@@ -11,4 +11,9 @@ SupOf3 == [a \in Actors |-> IF a = "A" THEN "S" ELSE IF a = "B" THEN "A" ELSE No
 MaxMsgs3 == [a \in Actors |-> IF a = "A" THEN 1 ELSE 0]
 MaxInject3 == [a \in Actors |-> 0]
 EnvOps3 == [a \in Actors |-> IF a = "A" THEN {"stop", "kill", "abort"} ELSE IF a = "B" THEN {"drain", "kill"} ELSE {"kill"}]
+\* a supervisor with two children: stop_children / drain_children against the children's own traffic
+SupOfKids == [a \in Actors |-> IF a \in {"A", "B"} THEN "S" ELSE NoA]
+MaxMsgsKids == [a \in Actors |-> IF a = "A" THEN 1 ELSE 0]
+MaxInjectKids == [a \in Actors |-> 0]
+EnvOpsKids == [a \in Actors |-> IF a = "S" THEN {"stopkids", "drainkids"} ELSE IF a = "A" THEN {"kill"} ELSE {}]
 =============================================================================
